@@ -11,7 +11,8 @@ CHECKS = {
     "C01": dict(
         text="Every recorded chunk stream (both column settings, first pass and cached replay through a clone) is reassembled by TLC and "
              "compared with the denotation Text(tree) defined in Sem.tla (reference splice for ReplaceSource, lossy decoding for buffers). "
-             "Small scope enumerated exhaustively by TLC (Gen.tla scope c01), larger trees sampled with a seed.",
+             "Small scope enumerated exhaustively by TLC (Gen.tla scope c01), larger trees sampled with a seed. LeafM (tokenizer and leaf streams) and SplitM "
+             "(map-driven splitters) are model-checked designs bound to the recorded leaf streams (MODEL-DRIFT only).",
         note=COMMON_NOTE,
         technique="TLA+ denotational oracle + TLC trace validation of replayed TLC-generated and random programs",
     ),
@@ -55,7 +56,10 @@ CHECKS = {
     ),
     "C09": dict(
         text="Compose.tla states declaratively what the combination of an outer and an inner map must attribute every position to; TLC "
-             "evaluates it on map() recorded from SourceMapSource values with inner maps (original source given / from sourcesContent, removal, both column settings).",
+             "evaluates it on map() recorded from SourceMapSource values with inner maps (original source given / from sourcesContent, removal, both column settings). "
+             "The implementation-shaped model CombineM (index tables, per-line inner table, lookup, content-conditioned column advance, name confirmation, lazy "
+             "announcements) is model-checked against Compose on 11,977 trees and every recorded stream of such a source (four modes) is compared event by event "
+             "with the model (MODEL-DRIFT only).",
         note=COMMON_NOTE + " Names: an inner name may be dropped where the column was advanced; in the no-inner-mapping case the name is not constrained.",
         technique="TLA+ declarative map composition + TLC trace validation",
     ),
@@ -77,7 +81,9 @@ CHECKS = {
     "C20": dict(
         text="Gen.tla enumerates every single edit (Edits) of every listed kind at every node of 14 base trees plus all pairs of base trees; for "
              "pairs whose source/buffer/map really differ TLC requires different hashes and inequality; the hash of a tree is recomputed in a "
-             "second thread and a second process and after observer histories.",
+             "second thread and a second process and after observer histories. HashM models the Hasher calls of every impl Hash; TLC checks on it that equal "
+             "feeds imply equal observables (refuted for the code as it is: known finding K3, whose class is evaluated on the model; holds once a ConcatSource "
+             "feeds the number of its children), and a recording Hasher binds the model to the code (MODEL-DRIFT only).",
         note=COMMON_NOTE + " 64-bit collisions are outside the model.",
         technique="TLA+ edit enumeration + TLC trace validation; cross-process reproducibility",
     ),
